@@ -28,7 +28,7 @@ import (
 )
 
 const childEnv = "VH_C12_CHILD"
-const childAS = 4 << 30       // RLIMIT_AS of the child
+const childAS = 4 << 30 // RLIMIT_AS of the child
 const childWatchdog = 15 * time.Second
 
 type job struct {
